@@ -347,6 +347,7 @@ def run(prog, rep, tier, repo):
     rep.floor('wiring', 12, 'min/max/mean + delegating methods')
     for kk in eng.visited:
         rep.touch(kk)
+    _merge_rule(prog, rep)
     # ---- every statistic sees every observation: a value filter inside a moment / order / covariance routine must keep every finite value
     from ..precond import check_data_filters
     check_data_filters(prog, rep, 'data-filter', sorted(k for k, b in pdb.bodies.items() if k.startswith(ST) and b.kind != 'closure'),
@@ -521,3 +522,79 @@ def _pos_before(f, a, b):
     if a[0] == b[0]:
         return a[1] < b[1]
     return f.cfg.dominates(a[0], b[0])
+
+
+def _merge_rule(prog, rep):
+    """a routine of statistics:: that joins two (count, mean, M2) aggregates into one (pairwise / chunked accumulation) must return the
+    aggregate of the union.  Its returned triple is evaluated on exact witnesses: the aggregates of {0, 2} and {4, 6} (equal sizes) and of
+    {0} and {2, 4} (sizes 1 and 2).  Wrong on equal sizes is a violation outright; right there but wrong on unequal sizes (the
+    equal-halves form of the Chan-Golub-LeVeque update) is one when a caller feeds it the two parts of `split_at(len / 2)`, which differ
+    in size for every odd length.  No such routine in the crate: nothing to decide."""
+    from ..precond import tev, Frame, Uneval, NC, _nk
+    pdb = prog.pdb
+    ncx = NC(prog)
+    TRI = '(usize, f64, f64)'
+    n = 0
+    for k, b in sorted(pdb.bodies.items()):
+        if not k.startswith(ST) or b.kind == 'closure' or b.arg_count != 2:
+            continue
+        if not (b.local_ty(0) == TRI and b.local_ty(1).lstrip('&') == TRI and b.local_ty(2).lstrip('&') == TRI):
+            continue
+        f = prog.func(k)
+        if f is None:
+            continue
+        n += 1
+        rep.touch(k)
+        key = 'merge:%s' % short(k)
+        rets = f.return_values()
+
+        def run_w(A, B):
+            env = {}
+            for ai, agg_ in ((1, A), (2, B)):
+                for fi, v in enumerate(agg_):
+                    env[_nk(('field', ('arg', ai, None), fi, None))] = v
+            ctx = Frame(f, env=env, ncx=ncx)
+            out = []
+            for r in rets:
+                out.append(tuple(tev(('field', r, i, None), ctx) for i in range(3)))
+            return out
+        eq_w = ((2, 1.0, 2.0), (2, 5.0, 2.0), (4, 3.0, 20.0), '{0, 2} and {4, 6}')
+        un_w = ((1, 0.0, 0.0), (2, 3.0, 2.0), (3, 2.0, 8.0), '{0} and {2, 4}')
+        verdicts = {}
+        try:
+            for nm, (A, B, want, what) in (('equal', eq_w), ('unequal', un_w)):
+                got = run_w(A, B)
+                ok = all(g[0] == want[0] and abs(g[1] - want[1]) < 1e-12 and abs(g[2] - want[2]) < 1e-12 for g in got) and bool(got)
+                verdicts[nm] = (ok, got, want, what)
+        except Uneval as ex:
+            rep.undecided('merge', key, 'returned aggregate not evaluated (%s)' % str(ex)[:40], site_of(b), proof=False)
+            continue
+        if not verdicts['equal'][0]:
+            ok, got, want, what = verdicts['equal']
+            rep.viol('merge', key, '%s of the aggregates of %s returns %s; the aggregate of the union is %s' % (short(k), what, got[0], want), site_of(b))
+            continue
+        if verdicts['unequal'][0]:
+            rep.ok('merge', key, 'returns the aggregate of the union on the equal-size and the unequal-size witness')
+            continue
+        # exact only for parts of equal size: is it fed parts of unequal size?
+        ok, got, want, what = verdicts['unequal']
+        fed = None
+        for kk, bb_ in sorted(pdb.bodies.items()):
+            g = prog.func(kk) if kk.startswith(ST) else None
+            if g is None:
+                continue
+            for c in g.calls():
+                if c.path != k:
+                    continue
+                for z in subterms(c.args[0]):
+                    if tag(z) == 'call' and short(z[1]) == 'split_at' and len(z[2]) == 2:
+                        at_ = z[2][1]
+                        if tag(at_) == 'bin' and at_[1] == 'Div' and tag(at_[3]) == 'const' and at_[3][2] == 2 and at_[2] == ('len', z[2][0]):
+                            fed = (kk, show(z)[:50])
+        if fed:
+            rep.viol('merge', key, '%s is exact only for two parts of the same size (for the aggregates of %s it returns %s, the aggregate of the union is %s), and %s '
+                     'feeds it the parts of %s, whose sizes differ by one for every odd length' % (short(k), what, got[0], want, short(fed[0]), fed[1]), site_of(b))
+        else:
+            rep.undecided('merge', key, '%s is exact only for parts of equal size; whether its callers guarantee that is not read' % short(k), site_of(b), proof=False)
+    rep.ok('merge', 'merge:scan', '%d aggregate-joining routines in statistics::' % n)
+    rep.floor('merge', 1, 'scan of statistics::')
